@@ -50,7 +50,7 @@ D_TABLE = {
 }
 
 
-def spectrum_calls(fn, blocks):
+def spectrum_calls(fn, blocks, prog=None):
     out = []
     for b in sorted(blocks):
         t = fn.term(b)
@@ -58,6 +58,18 @@ def spectrum_calls(fn, blocks):
             p = t["callee"].get("path") or ""
             if p.startswith("sfs_core::spectrum::Spectrum::<") and not p.endswith("::clone"):
                 out.append((b, p))
+            elif prog is not None and p.startswith("core::ops::function::Fn") and t["args"]:
+                # a local closure called here (`let normalized = || scs.clone().into_normalized(); .. normalized().f2()`): what it calls
+                # on the spectrum happens at this point of the arm
+                cp = an.closure_of_operand(fn, t["args"][0])
+                if cp is None:
+                    l_ = op_local(t["args"][0])
+                    tg_ = fn.resolve_ptr(l_) if l_ is not None else None
+                    if tg_ is not None and not tg_[1]:
+                        cp = an.closure_of_operand(fn, {"k": "copy", "place": {"l": tg_[0], "p": []}})
+                g = prog.fn(cp) if cp else None
+                if g is not None:
+                    out += [(b, p2) for b2, p2 in spectrum_calls(g, set(g.nodes()))]
     return out
 
 
@@ -72,7 +84,7 @@ def calc_table(chk):
     arms = {}
     for v, tgt in table.items():
         region = an.arm_region(f, sb, tgt)
-        arms[v] = spectrum_calls(f, region)
+        arms[v] = spectrum_calls(f, region, chk.prog)
     return f, arms
 
 
